@@ -475,3 +475,11 @@ CASES += [
          edits=[(M, '.compare_exchange(ptr as usize, Self::NONE, SeqCst, SeqCst)', '.compare_exchange(ptr as usize, Self::NONE, Release, Relaxed)')]),
 ]
 
+CASES += [
+    # revert of fix: 756aa49 (the handle is converted with into_ptr after its count went with the exchange), one case per site
+    dict(name='m-into-ptr-after-publish-cas', kind='mutant', props=['C01', 'C05', 'C18'], expect=['C01', 'C05'],
+         edits=[(H, 'core::mem::forget(new);', 'T::into_ptr(new);')]),
+    dict(name='m-into-ptr-after-handover', kind='mutant', props=['C01', 'C03'], expect=['C01', 'C03'],
+         edits=[(HP, 'core::mem::forget(replacement);', 'T::into_ptr(replacement);')]),
+]
+
